@@ -207,6 +207,23 @@ impl<T: ?Sized> Mutex<T> {
     }
 }
 
+#[cfg(feature = "verif-hooks")]
+impl<T: ?Sized> Mutex<T> {
+    /// State word and `lock_ops` listeners.
+    #[doc(hidden)]
+    pub fn __verif_snapshot(&self) -> crate::__verif::Snapshot {
+        crate::__verif::Snapshot {
+            words: std::vec![self.state.load(Ordering::SeqCst)],
+            events: std::vec![crate::__verif::event(&self.lock_ops)],
+        }
+    }
+
+    /// Pointer to the protected value, for reading it while the mutex is known to be free.
+    pub(crate) fn __verif_data(&self) -> *mut T {
+        self.data.get()
+    }
+}
+
 impl<T: ?Sized> Mutex<T> {
     /// Acquires the mutex and clones a reference to it.
     ///
@@ -577,6 +594,15 @@ impl<T: ?Sized, B: Unpin + Borrow<Mutex<T>>> EventListenerFuture for AcquireSlow
 
                     // If waiting for too long, fall back to a fairer locking strategy that will prevent
                     // newer lock operations from starving us forever.
+                    #[cfg(all(feature = "verif-hooks", not(target_family = "wasm")))]
+                    if let Some(fire) = crate::__verif::starvation_oracle() {
+                        if fire {
+                            break;
+                        } else {
+                            continue;
+                        }
+                    }
+
                     #[cfg(all(feature = "std", not(target_family = "wasm")))]
                     if start.elapsed() > Duration::from_micros(500) {
                         break;
